@@ -40,6 +40,9 @@ def fake_scipy_norm(uf=True, congruence=False):
 
     def cdf(x, loc=0, scale=1):
         c = cur()
+        if not (loc == 0 and scale == 1):
+            # argument obligation: the two-proportion statistic is referred to the *standard* normal distribution
+            raise AssertionError(f"norm.cdf called with loc={loc!r}, scale={scale!r}: the standard normal is documented")
         if not c.symbolic:
             # concrete replay: constant stub returning the model's value, if the
             # model assigned one; otherwise the real library
